@@ -310,6 +310,32 @@ def consumers(ctx: Ctx, py: PyProgram) -> None:
         ctx.violation("C01.4/handler-agree", key_of(isa.EMU_PY, "Emulator.decode_instruction", f"decode() handlers {sorted(handled)}"),
                       f"the emulator fetch lets {missing} from decode() escape, while the Binary Ninja hooks turn them into 'not an instruction' "
                       "(e.g. bytes 56 04 00: hooks return None, Emulator.decode_instruction raises AssertionError)", f"{isa.EMU_PY}:{fn.lineno}")
+    # what decode() accepted is what the emulator executes: the local bound from decode() is replaced (by the fallback, by None ..)
+    # only in the handlers above or under a test that it is None.  Anything else makes the emulator reject, or re-interpret, byte
+    # strings the hooks accept.
+    holders = {t.id for a in ast.walk(fn) if isinstance(a, ast.Assign) and any(c in list(ast.walk(a.value)) for c in calls) for t in a.targets if isinstance(t, ast.Name)}
+    ctx.need(holders, "Emulator.decode_instruction: decode() result is not bound to a local")
+    parent = {}
+    for p_ in ast.walk(fn):
+        for ch in ast.iter_child_nodes(p_):
+            parent[id(ch)] = p_
+    for a in ast.walk(fn):
+        if not (isinstance(a, ast.Assign) and any(isinstance(t, ast.Name) and t.id in holders for t in a.targets)) or any(c in list(ast.walk(a.value)) for c in calls):
+            continue
+        n += 1
+        nm = next(t.id for t in a.targets if isinstance(t, ast.Name) and t.id in holders)
+        ok = False
+        anc, child = parent.get(id(a)), a
+        while anc is not None and anc is not fn:
+            if isinstance(anc, ast.ExceptHandler):
+                ok = True
+            if isinstance(anc, ast.If) and child in anc.body and unparse(anc.test).replace(" ", "") in (f"{nm}isNone", f"not{nm}"):
+                ok = True
+            anc, child = parent.get(id(anc)), anc
+        if not ok:
+            ctx.violation("C01.4/decoded-kept", key_of(isa.EMU_PY, "Emulator.decode_instruction", "decoded instruction replaced"),
+                          f"the emulator replaces the instruction decode() returned (`{unparse(a)[:70]}`) outside the failure handlers: for those byte strings the emulator's fetch "
+                          "answers differently (other mnemonic, other length) from the Binary Ninja hooks", f"{isa.EMU_PY}:{a.lineno}")
     # the window the emulator decodes is the bytes at address, address+1, ...: the fetch closure reads memory at `address + offset`,
     # unmasked (the Binary Ninja hooks are handed consecutive bytes; a fetch that wraps or masks decodes other bytes near a boundary)
     from .. import linform
